@@ -58,6 +58,77 @@ Reduce(op, vals, D) ==
          [] op = "all"    -> << IF \A i \in 1..n : vals[i] # 0 THEN 1 ELSE 0, 1 >>
          [] op = "any"    -> << IF \E i \in 1..n : vals[i] # 0 THEN 1 ELSE 0, 1 >>
 
+(* ---- non-finite data (float arrays): NaN, +inf, -inf ------------------------------------ *)
+\* A data value is a small integer (meaning v / D) or one of three sentinels; a result is a rational <<num, den>>
+\* with den > 0 or <<sentinel, 0>>.  The semantics are those of IEEE arithmetic under the reduction over the
+\* element's own corners (what numpy's reductions compute), per reduction:
+\*   sum, mean  NaN if a NaN is present or both infinities are; else the infinity present
+\*   prod       NaN if a NaN is present, or an infinity together with a zero; else the infinity with the sign of the product
+\*   min (max)  NaN if a NaN is present; else -inf (+inf) if present; else the extremum of the finite values, an
+\*              infinity of the other sign only if nothing else is there
+\*   median     NaN if a NaN is present; else the middle of the sorted values with -inf < finite < +inf, the two
+\*              middle ones averaged (-inf and +inf average to NaN)
+\*   var, std   NaN as soon as any value is not finite (x - mean is inf - inf or NaN)
+\*   all, any   NaN and the infinities are non-zero, hence true
+NaNV  == 1000001
+PInfV == 1000002
+NInfV == 1000003
+IsSpecial(v) == v >= NaNV
+Special(c)   == << c, 0 >>
+SignOf(x)    == IF x > 0 THEN 1 ELSE IF x < 0 THEN -1 ELSE 0
+ReduceX(op, vals, D) ==
+    LET n    == Len(vals)
+        idx  == 1..n
+        nan  == \E i \in idx : vals[i] = NaNV
+        nP   == Cardinality({ i \in idx : vals[i] = PInfV })
+        nN   == Cardinality({ i \in idx : vals[i] = NInfV })
+        fin  == SelectSeq(vals, LAMBDA v : ~IsSpecial(v))
+        zero == \E i \in 1..Len(fin) : fin[i] = 0
+        \* order for the median: -inf < finite < +inf, as keys
+        key(v) == IF v = NInfV THEN -1000000 ELSE IF v = PInfV THEN 1000000 ELSE v
+        srt  == SortSeq(vals, LAMBDA a, b : key(a) < key(b))
+        avg2(a, b) == IF IsSpecial(a) /\ IsSpecial(b) THEN (IF a = b THEN Special(a) ELSE Special(NaNV))
+                      ELSE IF IsSpecial(a) THEN Special(a) ELSE IF IsSpecial(b) THEN Special(b) ELSE << a + b, 2 * D >>
+        one(a) == IF IsSpecial(a) THEN Special(a) ELSE << a, D >>
+    IN IF ~nan /\ nP = 0 /\ nN = 0 THEN Reduce(op, vals, D)
+       ELSE CASE op \in { "sum", "mean" } ->
+                   IF nan \/ (nP > 0 /\ nN > 0) THEN Special(NaNV) ELSE IF nP > 0 THEN Special(PInfV) ELSE Special(NInfV)
+              [] op = "prod" ->
+                   IF nan \/ zero THEN Special(NaNV)
+                   ELSE LET sg == (IF nN % 2 = 1 THEN -1 ELSE 1) * SignOf(ProdSeq([ i \in 1..Len(fin) |-> SignOf(fin[i]) ]))
+                        IN IF sg > 0 THEN Special(PInfV) ELSE Special(NInfV)
+              [] op = "min" ->
+                   IF nan THEN Special(NaNV) ELSE IF nN > 0 THEN Special(NInfV)
+                   ELSE IF fin = << >> THEN Special(PInfV) ELSE << MinOf(Range(fin)), D >>
+              [] op = "max" ->
+                   IF nan THEN Special(NaNV) ELSE IF nP > 0 THEN Special(PInfV)
+                   ELSE IF fin = << >> THEN Special(NInfV) ELSE << MaxOf(Range(fin)), D >>
+              [] op = "median" ->
+                   IF nan THEN Special(NaNV)
+                   ELSE IF n % 2 = 1 THEN one(srt[(n + 1) \div 2]) ELSE avg2(srt[n \div 2], srt[(n \div 2) + 1])
+              [] op \in { "var", "std" } -> Special(NaNV)
+              [] op = "all" -> << IF zero THEN 0 ELSE 1, 1 >>
+              [] op = "any" -> << 1, 1 >>
+
+\* laws of the non-finite semantics on a value sequence with one entry replaced by a sentinel
+NonFiniteLaws(vals, D) ==
+    \A j \in 1..Len(vals) :
+      LET wn == [ vals EXCEPT ![j] = NaNV ]
+          wp == [ vals EXCEPT ![j] = PInfV ]
+          wm == [ vals EXCEPT ![j] = NInfV ]
+          rest == RemoveAt(vals, j)
+      IN /\ \A op \in Ops \ { "all", "any" } : ReduceX(op, wn, D) = Special(NaNV)              \* NaN propagates
+         /\ ReduceX("any", wn, D) = << 1, 1 >> /\ ReduceX("all", wn, D) = ReduceX("all", wp, D)   \* ... and is truthy
+         /\ ReduceX("max", wp, D) = Special(PInfV) /\ ReduceX("min", wm, D) = Special(NInfV)
+         /\ ReduceX("sum", wp, D) = Special(PInfV) /\ ReduceX("mean", wm, D) = Special(NInfV)
+         /\ (rest # << >> => ReduceX("min", wp, D) = Reduce("min", rest, D) /\ ReduceX("max", wm, D) = Reduce("max", rest, D))
+         /\ ReduceX("var", wp, D) = Special(NaNV) /\ ReduceX("std", wm, D) = Special(NaNV)
+         /\ \A op \in Ops : ReduceX(op, vals, D) = Reduce(op, vals, D)                             \* finite data: unchanged
+         /\ \A op \in Ops : ReduceX(op, Rotate(wp, 1), D) = ReduceX(op, wp, D)                     \* order-free
+         \* both infinities: their sum is NaN
+         /\ \A i \in 1..Len(vals) : i # j =>
+                ReduceX("sum", [ wp EXCEPT ![i] = NInfV ], D) = Special(NaNV)
+
 (* ---- L1: what is gathered -------------------------------------------------- *)
 \* values of `row` (a sequence indexed by node id + 1) on the nodes of an element (a sequence of
 \* 0-based node ids without padding: a face of the mesh, or the two ends of an edge)
